@@ -291,7 +291,7 @@ func c20Lens(rng *rand.Rand, profile string, maxBytes int) (lens []int, geom map
 			// The line break before X lies e bytes after the window start
 			// while X still has to be served from that window (e >= 0), or X
 			// is the first line that forces a reload (e < 0).
-			d = xl + 1 + (rng.Intn(4) - 1) - c20Entry
+			d = xl + 1 + (rng.Intn(6) - 3) - c20Entry
 		case 4, 5:
 			// The window starts on, just before or just after the line break
 			// of X.
@@ -310,9 +310,12 @@ func c20Lens(rng *rand.Rand, profile string, maxBytes int) (lens []int, geom map
 		}
 		tail := c20FillExact(rng, tailBytes, w)
 		var head []int
-		hn := rng.Intn(150)
-		for i := 0; i < hn; i++ {
-			head = append(head, c20RandLen(rng, c20Weighted(rng, c20WHeavy)))
+		// The head keeps the window start inside the file.
+		hb, hwant := 0, 3*c20Entry+rng.Intn(c20Window)
+		for hb < hwant {
+			l := c20RandLen(rng, c20Weighted(rng, c20WHeavy))
+			head = append(head, l)
+			hb += l + 1
 		}
 		lens = append(lens, head...)
 		lens = append(lens, xl)
